@@ -134,8 +134,11 @@ class Collector:
         self.budget_exhausted = self.budget_exhausted or d['budget_exhausted']
         for k, v in d['jobs'].items():
             j = self.jobs.setdefault(k, {'evaluations': 0, 'nontrivial': 0, 'discards': 0})
-            for kk in j:
-                j[kk] += v[kk]
+            for kk, vv in v.items():
+                if isinstance(vv, (int, float)) and not isinstance(vv, bool):
+                    j[kk] = j.get(kk, 0) + vv
+                else:
+                    j[kk] = vv
         for bucket, b in d['buckets'].items():
             mine = self.buckets.get(bucket)
             if mine is None:
@@ -163,6 +166,9 @@ def _run_shard(args: tuple) -> dict:
         for job in mod.jobs(tier):
             if job.kind == 'hyp':
                 _run_hyp(mod, job, col, seed, shard, nshards, t_end)
+            elif job.kind == 'fuzz':
+                if shard == 0:
+                    _run_fuzz(mod, job, col, seed, t_end)
             elif job.kind == 'enum':
                 for i, case in enumerate(job.make()):
                     if i % nshards != shard:
@@ -238,6 +244,60 @@ def corpus_cases(pid: str) -> list:
                     doc = json.load(f)
                 out.append((name, doc['case'] if isinstance(doc, dict) and 'case' in doc else doc))
     return out
+
+
+def _run_fuzz(mod: Any, job: Job, col: Collector, seed: int, t_end: float) -> None:
+    """Coverage-guided campaign (atheris/libFuzzer) in a subprocess; the oracle lives inside the target (vf/fuzz/target.py).
+    Fixed -runs and -seed, fresh corpus directory seeded from the generator. Failing inputs come back as replay files and are
+    re-judged here by run_case, so that bucketing and known findings apply. A missing atheris only skips the campaign."""
+    import shutil
+    import subprocess
+    spec = job.make()
+    try:
+        from vf import deps
+        deps.ensure('atheris')
+    except Exception:  # noqa: BLE001
+        col.jobs.setdefault(job.name, {'evaluations': 0, 'nontrivial': 0, 'discards': 0})['skipped'] = 'atheris not available'
+        return
+    base = os.path.join(ROOT, 'out', 'fuzz', mod.ID)
+    shutil.rmtree(base, ignore_errors=True)
+    corpus = os.path.join(base, 'corpus')
+    os.makedirs(corpus)
+    for i, data in enumerate(spec.get('seeds', [])):
+        with open(os.path.join(corpus, 'seed%04d' % i), 'wb') as f:
+            f.write(data)
+    stats = os.path.join(base, 'stats.json')
+    replay = os.path.join(base, 'replay')
+    cmd = [sys.executable, '-m', 'vf.fuzz.target', mod.ID, stats, replay, '-runs=%d' % spec['runs'], '-seed=%d' % (derive_seed(seed, mod.ID, 'fuzz') % (2 ** 31 - 2) + 1),
+           '-max_len=%d' % spec.get('max_len', 400), '-dict=' + os.path.join(ROOT, 'vf', 'fuzz', 'beancount.dict'), '-print_final_stats=0', corpus]
+    budget = max(30.0, t_end - time.time())
+    try:
+        subprocess.run(cmd, cwd=ROOT, env=dict(os.environ), stdout=subprocess.DEVNULL, stderr=subprocess.DEVNULL, timeout=budget)
+    except subprocess.TimeoutExpired:
+        col.budget_exhausted = True
+    try:
+        with open(stats) as f:
+            st = json.load(f)
+    except Exception:  # noqa: BLE001
+        st = {'execs': 0, 'accepted': 0, 'nontrivial_hashes': 0, 'classes': {}}
+    j = col.jobs.setdefault(job.name, {'evaluations': 0, 'nontrivial': 0, 'discards': 0})
+    j['evaluations'] += st['execs']
+    j['nontrivial'] += st['nontrivial_hashes']
+    j['discards'] += st['execs'] - st['accepted']
+    j['accepted'] = st['accepted']
+    col.evaluations += st['execs']
+    col.fuzz_discards = getattr(col, 'fuzz_discards', 0) + st['execs'] - st['accepted']
+    col.nontrivial |= {'fuzz-%s-%d' % (mod.ID, i) for i in range(st['nontrivial_hashes'])}
+    for c, n in st.get('classes', {}).items():
+        col.classes['fuzz:' + c] += n
+    if os.path.isdir(replay):
+        for name in sorted(os.listdir(replay)):
+            try:
+                with open(os.path.join(replay, name)) as f:
+                    case = json.load(f)['case']
+            except Exception:  # noqa: BLE001
+                continue
+            _one(mod, case, col, job.name)
 
 
 def load_prop(pid: str) -> Any:
@@ -462,7 +522,7 @@ def main(argv: Optional[list[str]] = None) -> int:
     if rc == 0 and missing and not col.budget_exhausted:
         print(f'HARNESS-ERROR: generator never produced required classes: {missing}')
         rc = 2
-    if rc == 0 and col.evaluations and col.discards > 0.35 * col.evaluations:
+    if rc == 0 and col.evaluations and col.discards > 0.35 * max(1, col.evaluations - sum(v.get('evaluations', 0) for k, v in col.jobs.items() if k.startswith('fuzz'))):
         print(f'HARNESS-ERROR: discard rate {col.discards}/{col.evaluations} too high (generator unsound)')
         rc = 2
 
